@@ -497,7 +497,7 @@ def gen_points(rng, s, k, special=True):
     pts = []
     for i in range(k):
         r = rng.choice([1.0, 1.0, 0.125, 8.0, 100.0, 0.01])
-        kind = rng.choice(['gen', 'gen', 'gen', 'dy', 'xpos', 'yax', 'nearcut', 'nearcut2']) if special else 'gen'
+        kind = rng.choice(['gen', 'gen', 'gen', 'dy', 'xpos', 'yax', 'nearcut', 'nearcut2', 'oncut']) if special else 'gen'
         if kind == 'gen':
             x, y = rng.uniform(-1, 1) * r, rng.uniform(-1, 1) * r
         elif kind == 'dy':
@@ -510,6 +510,10 @@ def gen_points(rng, s, k, special=True):
             x, y = 0.0, rng.choice([-1, 1]) * rng.uniform(0.1, 1) * r
         elif kind == 'nearcut':
             x, y = -rng.uniform(0.1, 1) * r, rng.choice([-1, 1]) * r * 1e-9
+        elif kind == 'oncut':
+            # exactly on the cut half-plane in an axis-aligned frame (value there: as coded, theta = -pi; the Stroh
+            # displacement is complex there); in a rotated frame this is a point within round-off of the cut
+            x, y = -abs(cm.dyadic(rng, 0.125, 4, 3)), rng.choice([0.0, -0.0])
         else:
             x, y = -rng.uniform(0.1, 1) * r, rng.choice([-1, 1]) * r * rng.uniform(1e-4, 1e-2)
         z = rng.choice([0.0, rng.uniform(-5, 5)])
@@ -1298,6 +1302,62 @@ def _iso_limit(ctx, rng):
         prev = cur
 
 
+def _orientation_oracle(ctx, spec, s):
+    """the stored transform is a proper rotation taking the slip-plane normal (reciprocal-lattice vector h a* + k b* +
+    l c*, computed here exactly) to n and the line direction u a + v b + w c to m x n; C and b are rotated by it."""
+    np = _np()
+    rep = {'op': 'orientation', 'spec': spec}
+    T = s.transform
+    Tq = [[F(float(v)) for v in r] for r in T]
+    ctx.stats.case('oracle:orientation', (str(spec['transform']), str(spec['xi_uvw']), str(spec['slip_hkl']), str(spec['box']),
+                                          str(spec['m']), str(spec['n'])))
+    gram = [[sum(Tq[i][k] * Tq[j][k] for k in range(3)) for j in range(3)] for i in range(3)]
+    det = (Tq[0][0] * (Tq[1][1] * Tq[2][2] - Tq[1][2] * Tq[2][1]) - Tq[0][1] * (Tq[1][0] * Tq[2][2] - Tq[1][2] * Tq[2][0])
+           + Tq[0][2] * (Tq[1][0] * Tq[2][1] - Tq[1][1] * Tq[2][0]))
+    if any(abs(gram[i][j] - (1 if i == j else 0)) > F(1, 10 ** 12) for i in range(3) for j in range(3)) or abs(det - 1) > F(1, 10 ** 12):
+        ctx.violate('orientation:rotation', f'stored transform is not a proper rotation (det {float(det)}): {T.tolist()}', rep)
+        return
+    m, n = mn_vectors(spec)
+    if spec['route'] == 'miller':
+        V = [[F(float(v)) for v in r] for r in (spec['box'] or [[1, 0, 0], [0, 1, 0], [0, 0, 1]])]
+        u, hkl = spec['xi_uvw'], spec['slip_hkl']
+        line = [sum(u[i] * V[i][c] for i in range(3)) for c in range(3)]
+
+        def cr(a, b):
+            return [a[1] * b[2] - a[2] * b[1], a[2] * b[0] - a[0] * b[2], a[0] * b[1] - a[1] * b[0]]
+        rec = [cr(V[1], V[2]), cr(V[2], V[0]), cr(V[0], V[1])]          # reciprocal vectors times the cell volume
+        vol = sum(V[0][c] * rec[0][c] for c in range(3))
+        normal = [sum(hkl[i] * rec[i][c] for i in range(3)) / vol for c in range(3)]
+        for nm, src, dst in (('slip-plane normal', normal, n), ('line direction', line, np.cross(m, n))):
+            img = [sum(Tq[i][j] * src[j] for j in range(3)) for i in range(3)]
+            ln_ = math.sqrt(float(sum(v * v for v in img)))
+            if any(abs(float(img[i]) / ln_ - float(dst[i])) > 1e-9 for i in range(3)):
+                ctx.violate('orientation:miller', f'the transform takes the {nm} of ξ_uvw={u}, slip_hkl={hkl} to '
+                            f'{[float(v) / ln_ for v in img]}, not to {list(map(float, dst))}', rep)
+    elif spec['transform'] is not None:
+        ax = np.array(spec['transform'], dtype=float)
+        for i in range(3):
+            row = [F(float(v)) for v in ax[i]]
+            nr = math.sqrt(float(sum(v * v for v in row)))
+            if any(abs(float(row[c]) / nr - T[i][c]) > 1e-12 for c in range(3)):
+                ctx.violate('orientation:axes', f'row {i} of the stored transform is not the normalised axis {ax[i].tolist()}', rep)
+    # C and b in the solver frame
+    C0 = np.array(spec['cij'], dtype=float)
+    import atomman as am
+    C4 = am.ElasticConstants(Cij=C0).Cijkl
+    want = np.einsum('ig,jh,km,ln,ghmn->ijkl', T, T, T, T, C4)
+    if float(np.abs(s.C.Cijkl - want).max()) > 3 * spec['tol'] * float(np.abs(want).max()):
+        ctx.violate('orientation:C', f'stiffness in the solver frame is not the rotated crystal stiffness ({spec["cls"]}, route {spec["route"]})', rep)
+    b0 = np.array(resolve_burgers(spec), dtype=float)
+    if spec['box'] is not None:
+        b0 = b0.dot(np.array(spec['box'], dtype=float))
+    wb = T.dot(b0)
+    if float(np.abs(s.burgers - wb).max()) > 3 * spec['tol'] * float(np.abs(wb).max()):
+        ctx.violate('orientation:burgers', f'Burgers vector in the solver frame {s.burgers.tolist()} is not transform . b = {wb.tolist()}', rep)
+    if not (np.array_equal(s.m, m) and np.array_equal(s.n, n) and float(np.abs(s.ξ - np.cross(m, n)).max()) < 1e-15):
+        ctx.violate('orientation:frame', 'stored m, n, ξ are not the requested axes', rep)
+
+
 def search(ctx, broken):
     rng = random.Random(ctx.seed * 7919 + 12)
     mult = 3 if broken else 1
@@ -1317,6 +1377,7 @@ def search(ctx, broken):
         except Exception as e:  # noqa
             ctx.violate(f'{kind}:raises', f'{kind} solver raised {type(e).__name__}: {e}', {'op': 'clauses', 'solver': kind, 'spec': spec})
             continue
+        _orientation_oracle(ctx, spec, s)
         _clauses(ctx, spec, s, rng, kind)
         if it % 2 == 0:
             _covariance(ctx, spec, rng, kind)
@@ -1331,13 +1392,14 @@ def replay(ctx, payload):
     r = payload.get('replay', {}) or {}
     op = r.get('op')
     rng = random.Random(0)
-    if op in ('clauses', 'covariance') and 'spec' in r:
+    if op in ('clauses', 'covariance', 'orientation') and 'spec' in r:
         kind = r.get('solver', 'stroh')
         try:
             s = build(r['spec'], kind)
         except Exception as e:  # noqa
             ctx.violate(f'{kind}:raises', f'replayed problem raised {type(e).__name__}: {e}', r)
             return
+        _orientation_oracle(ctx, r['spec'], s)
         _clauses(ctx, r['spec'], s, rng, kind)
         for _ in range(4):
             _covariance(ctx, r['spec'], rng, kind)
